@@ -23,7 +23,7 @@ impl Deserialize for CostModel {
                 cbor_event::Len::Len(n) => arr.len() < n as usize,
                 cbor_event::Len::Indefinite => true,
             } {
-                if is_break_tag(raw, "CostModel")? {
+                if is_break_tag(raw, len, "CostModel")? {
                     break;
                 }
                 arr.push(Int::deserialize(raw)?);
